@@ -168,8 +168,53 @@ static int rand_width(uint64_t v) {
   do w = ws[vh_randn(5)]; while (w < min);
   return w;
 }
+/* wide items: counts and lengths on both sides of the head-width boundaries (23/24, 255/256, 65535/65536), so that
+ * 1-, 2- and 4-byte count heads, container growth in the decoder and long payloads are exercised */
+static size_t wide_item(unsigned char* b, size_t cap) {
+  static const size_t counts[] = {24, 25, 31, 32, 33, 64, 100, 255, 256, 257, 300, 1000};
+  size_t c = counts[vh_randn(cap > 5000 ? 12 : cap > 1500 ? 11 : 7)];
+  size_t n = 0;
+  switch (vh_randn(7)) {
+    case 0: /* definite array of c small leaves */
+      n = put_head(b, 4, c, rand_width(c));
+      for (size_t i = 0; i < c; i++) b[n++] = (unsigned char)(i % 24);
+      return n;
+    case 1: /* indefinite array */
+      b[n++] = 0x9f;
+      for (size_t i = 0; i < c; i++) b[n++] = (unsigned char)(0x20 + i % 24);
+      b[n++] = 0xff;
+      return n;
+    case 2: /* definite map, c/2 pairs */
+      n = put_head(b, 5, c / 2, rand_width(c / 2));
+      for (size_t i = 0; i < c / 2; i++) { b[n++] = (unsigned char)(i % 24); b[n++] = 0xf6; }
+      return n;
+    case 3: /* indefinite map */
+      b[n++] = 0xbf;
+      for (size_t i = 0; i < c / 2; i++) { b[n++] = 0x61; b[n++] = (unsigned char)('a' + i % 26); b[n++] = (unsigned char)(i % 24); }
+      b[n++] = 0xff;
+      return n;
+    case 4: { /* chunked string with many chunks */
+      int bs = (int)vh_randn(2);
+      size_t m = c > 300 ? 300 : c;
+      b[n++] = bs ? 0x5f : 0x7f;
+      for (size_t i = 0; i < m; i++) { b[n++] = bs ? 0x41 : 0x61; b[n++] = (unsigned char)('a' + i % 26); }
+      b[n++] = 0xff;
+      return n;
+    }
+    default: { /* long definite string */
+      static const size_t lens[] = {23, 24, 25, 255, 256, 257, 1000, 65535, 65536};
+      size_t l = lens[vh_randn(cap > 70000 ? 9 : cap > 1500 ? 7 : 6)];
+      int t = 2 + (int)vh_randn(2);
+      n = put_head(b, t, l, rand_width(l));
+      for (size_t i = 0; i < l; i++) b[n++] = (unsigned char)('a' + i % 26);
+      return n;
+    }
+  }
+}
+
 size_t vg_encoding(unsigned char* b, size_t cap, int depth) {
   if (cap < 64) { b[0] = 0x01; return 1; }
+  if (cap >= 700 && vh_randn(14) == 0) return wide_item(b, cap);
   int k = (int)vh_randn(depth <= 0 ? 6 : 14);
   size_t n = 0;
   switch (k) {
